@@ -47,13 +47,34 @@ type vfC17Run struct {
 	reject   func(h *HostInfo) bool // optional: the HostFilter rejects the host when this returns true
 	onDial   func(ip string)        // optional hook called by the dialer before it connects (may park)
 	csc      *vfScope
-	closeErr int32 // != 0: every socket's Close() reports an error
+	closeErr int32    // != 0: every socket's Close() reports an error
+	act      int64    // lifecycle events: successful dials, connection closes, pool adds / removals / closes
+	inDial   int32    // DialHost calls in flight
+	pools    sync.Map // *hostConnPool -> true: every pool of the session whose hooks fired
 }
+
+// poolsOf returns the host pools of this run's session seen so far (through their hooks) for one address.
+func (r *vfC17Run) poolsOf(ip string) []*hostConnPool {
+	var out []*hostConnPool
+	r.pools.Range(func(k, _ interface{}) bool {
+		p := k.(*hostConnPool)
+		if p.host.ConnectAddress().String() == ip {
+			out = append(out, p)
+		}
+		return true
+	})
+	return out
+}
+
+func (r *vfC17Run) actN() int64 { return atomic.LoadInt64(&r.act) }
+func (r *vfC17Run) busy() bool  { return atomic.LoadInt32(&r.inDial) > 0 }
 
 type vfC17RunDialer struct{ run *vfC17Run }
 
 func (d *vfC17RunDialer) DialHost(ctx context.Context, host *HostInfo) (*DialedHost, error) {
 	r := d.run
+	atomic.AddInt32(&r.inDial, 1)
+	defer atomic.AddInt32(&r.inDial, -1)
 	ip := host.ConnectAddress().String()
 	n := r.base.Node(ip)
 	if n == nil {
@@ -81,8 +102,10 @@ func (d *vfC17RunDialer) DialHost(ctx context.Context, host *HostInfo) (*DialedH
 		if prev != nil {
 			prev()
 		}
+		atomic.AddInt64(&r.act, 1)
 		r.tr.Emit("h_conn_closed", "obj", 0, "a", id)
 	}
+	atomic.AddInt64(&r.act, 1)
 	r.tr.Emit("h_dial_ok", "obj", 0, "a", id)
 	return &DialedHost{Conn: &vfC17Conn{vfMemConn: c, failClose: &r.closeErr}}, nil
 }
@@ -147,6 +170,11 @@ func vfC17InstallRouter() {
 			}
 			if point == "p_close" && p.session.ctx.Err() != nil && !p.session.Closed() {
 				d.run.tr.Emit("h_ctx_cancelled_before_pool_close", "obj", d.run.tr.ObjID(p), "a", 0, "size", p.size)
+			}
+			d.run.pools.Store(p, true)
+			switch point {
+			case "p_connect_add", "p_connect_late", "p_handle_error", "p_close":
+				atomic.AddInt64(&d.run.act, 1) // (fills that fail against a down node are not progress)
 			}
 			d.run.tr.Emit(point, "obj", d.run.tr.ObjID(p), "a", a, "size", p.size)
 		}
@@ -313,6 +341,7 @@ type vfC17SessResult struct {
 	plan        string
 	leakDump    string
 	rescued     bool
+	unsure      string // a wall-clock observation that could not be settled: the run gives no verdict
 	leak        string
 	stuck       string
 	perHostOver string
@@ -395,9 +424,17 @@ func (r *vfC17Run) closeAndObserve(sched int, plan string, closers func()) vfC17
 	r.tr.Emit("h_close_start", "obj", 0, "a", 0)
 	evs := r.tr.Events()
 	closeStart := evs[len(evs)-1]["seq"].(int64)
-	ok, dump := vfWithin(vfC17CloseWatchdog, closers)
+	// Close returns: early exit; a hang is declared only after the deadline with the goroutine that runs
+	// Session.Close blocked in the very same frames over several samples (vfC17Hung)
+	oc, dump := vfC17Hung(vfC17Go(closers), vfC17FindGoroutine(fmt.Sprintf("gocql.(*Session).Close(%p", r.sess)), nil)
 	end := vfC17Rec{Sched: sched, Ev: "s_end", Size: r.numConns, Conns: []int{}, Open: []int{}, Dead: []int{}, Q: "none"}
-	if !ok {
+	if oc == vfC17Unsure {
+		res.unsure = "Session.Close had not returned at the hard cap but was not provably stuck"
+		end.Q = "unsure"
+		res.recs = r.records(sched, end)
+		return res
+	}
+	if oc == vfC17Bad {
 		res.hang, res.dump = true, dump
 		res.hangSig = vfC17HangSig(dump, r.sess)
 		end.Q = "hang"
@@ -417,14 +454,23 @@ func (r *vfC17Run) closeAndObserve(sched int, plan string, closers func()) vfC17
 	}
 	// a new query must fail at once with the session-closed error
 	var qerr error
-	qok, _ := vfWithin(vfC17CloseWatchdog, func() { qerr = r.sess.Query("SELECT x FROM t").Exec() })
-	if !qok {
-		end.Q = "query-hang"
-	} else {
+	qo, _ := vfC17Hung(vfC17Go(func() { qerr = r.sess.Query("SELECT x FROM t").Exec() }),
+		vfC17FindGoroutine("gocql.(*Query).Exec", "closeAndObserve"), nil)
+	switch qo {
+	case vfC17Good:
 		end.Q = vfC17QueryClass(qerr)
+	case vfC17Bad:
+		end.Q = "query-hang"
+	default:
+		res.unsure = "a query after Close had not returned at the hard cap"
+		end.Q = "unsure"
 	}
-	// every dialed connection is closed within a bounded wait
-	vfC17Poll(2*time.Second, func() bool { return len(r.openConns()) == 0 })
+	// every dialed connection is closed: early exit; a leak is declared only after the deadline with no
+	// dial in flight and no connection opened / closed / added / removed any more
+	if vfC17Settle(func() bool { return len(r.openConns()) == 0 }, r.actN, r.busy) == vfC17Unsure {
+		res.unsure = "connections were still being opened / closed at the hard cap after Close"
+		end.Q = "unsure"
+	}
 	end.Open = r.openConns()
 	if len(end.Open) > 0 {
 		// which mechanism left them open (selects the key of the finding, not the verdict)
@@ -575,7 +621,7 @@ func vfC17RandomRun(seed int64, sched int) (res vfC17SessResult, err error) {
 		// quiescence: the dialer must not see more than NumConns open pool connections to any host (two
 		// pools for one host, a fill that over-counts, ... all end up here); transient excess is given 1.5 s
 		over := ""
-		vfC17Poll(1500*time.Millisecond, func() bool {
+		if vfC17Settle(func() bool {
 			over = ""
 			for ip, n := range r.openPerHost() {
 				if n > numConns {
@@ -583,8 +629,7 @@ func vfC17RandomRun(seed int64, sched int) (res vfC17SessResult, err error) {
 				}
 			}
 			return over == ""
-		})
-		if over != "" {
+		}, r.actN, r.busy) == vfC17Bad {
 			res.perHostOver = over
 		}
 		closers = s.Close
@@ -600,9 +645,7 @@ func vfC17RandomRun(seed int64, sched int) (res vfC17SessResult, err error) {
 				cw.Add(1)
 				go func() { defer cw.Done(); s.Close() }()
 			}
-			cw.Wait()
-			// the early-returning calls do not wait for the working one: the working one ends when Closed()
-			vfC17Poll(vfC17CloseWatchdog, s.Closed)
+			cw.Wait() // the working Close is one of the three
 		}
 	case 3:
 		plan = append(plan, "close-with-queries")
@@ -668,6 +711,11 @@ func vfC17RandomRun(seed int64, sched int) (res vfC17SessResult, err error) {
 	pho := res.perHostOver
 	res = r.closeAndObserve(sched, strings.Join(plan, ","), closers)
 	res.perHostOver = pho
+	if res.unsure != "" {
+		atomic.StoreInt32(&stop, 1)
+		r.dropConnScope()
+		return res, nil
+	}
 	if pho != "" {
 		// recorded for TLC as an event of the run: a = open connections, size = NumConns
 		var n int
@@ -681,8 +729,20 @@ func vfC17RandomRun(seed int64, sched int) (res vfC17SessResult, err error) {
 	defer r.dropConnScope()
 	if !res.hang {
 		// in-flight callers return (bounded): queries fail, the refresh is answered or refused
-		okw, dump := vfWithin(vfC17CloseWatchdog, wg.Wait)
-		if !okw {
+		me0 := " in goroutine " + gid + "\n"
+		wo, dump := vfC17Hung(vfC17Go(wg.Wait), func(d string) string {
+			// a caller this run started that sits in driver code
+			for _, g := range strings.Split(d, "\n\n") {
+				if strings.Contains(g+"\n", me0) && strings.Contains(g, "github.com/gocql/gocql.(*") && !strings.Contains(g, "WaitGroup).Wait") {
+					return g
+				}
+			}
+			return ""
+		}, r.actN)
+		if wo == vfC17Unsure {
+			res.unsure = "callers in flight during Close had not returned at the hard cap but were not provably stuck"
+		}
+		if wo == vfC17Bad {
 			res.leakDump = dump
 			// which calls of this run never returned: the first driver frame of the goroutines this
 			// run's goroutine started
@@ -744,6 +804,7 @@ func TestVfC17Sessions(t *testing.T) {
 		var wg sync.WaitGroup
 		var mu sync.Mutex
 		hung, anyHang := false, false
+		batchUnsure := ""
 		for i := 0; i < batch && b*batch+i < nRuns; i++ {
 			sched++
 			wg.Add(1)
@@ -767,7 +828,7 @@ func TestVfC17Sessions(t *testing.T) {
 					hung = true
 				}
 				info.Write(map[string]interface{}{"sched": sched, "plan": res.plan, "hang": res.hang, "sig": res.hangSig,
-					"dump": res.dump, "callers": res.leakDump, "leak": res.leak, "stuck": res.stuck, "per_host_over": res.perHostOver})
+					"dump": res.dump, "callers": res.leakDump, "leak": res.leak, "stuck": res.stuck, "per_host_over": res.perHostOver, "unsure": res.unsure})
 			}(sched)
 		}
 		wg.Wait()
@@ -789,7 +850,25 @@ func TestVfC17Sessions(t *testing.T) {
 				excluded[vfC17GoroutineID(g)] = true
 			}
 		} else {
-			vfC17Poll(2*time.Second, func() bool { gs = live(); return len(gs) == 0 })
+			// early exit when none is left; a leak is declared only when the very same goroutines are still there
+			// over several samples after the deadline
+			idsum := func() int64 {
+				var h int64
+				for _, g := range live() {
+					for _, c := range vfC17GoroutineID(g) {
+						h = h*131 + int64(c)
+					}
+					h = h*7 + 1
+				}
+				return h
+			}
+			if vfC17Settle(func() bool { gs = live(); return len(gs) == 0 }, idsum, nil) == vfC17Unsure {
+				batchUnsure = "driver goroutines were still coming and going at the hard cap after the batch was closed"
+				gs = nil
+			}
+		}
+		if batchUnsure != "" {
+			info.Write(map[string]interface{}{"sched": 100000 + b, "unsure": batchUnsure})
 		}
 		funcs := map[string]bool{}
 		for _, g := range gs {
@@ -832,7 +911,39 @@ type vfC17ScenResult struct {
 	What   string `json:"what"`
 	Obs    string `json:"obs"`
 	Detail string `json:"detail"`
-	Err    string `json:"err"` // harness problem: the scenario could not be set up
+	Err    string `json:"err"`    // harness problem: the scenario could not be set up
+	Unsure string `json:"unsure"` // a wall-clock observation could not be settled: no verdict from this scenario
+}
+
+// within runs fn; false = it did not return: provably stuck (a verdict) or - res.Unsure set - not settled.
+func (res *vfC17ScenResult) within(fn func(), alt func(string) string) (bool, string) {
+	o, dump := vfC17HungFn(fn, alt)
+	if o == vfC17Unsure {
+		res.Unsure = "a call had not returned at the hard cap but was not provably stuck"
+	}
+	return o == vfC17Good, dump
+}
+
+func (res *vfC17ScenResult) waitCh(done <-chan struct{}, find func(string) string) (bool, string) {
+	o, dump := vfC17Hung(done, find, nil)
+	if o == vfC17Unsure {
+		res.Unsure = "a call had not returned at the hard cap but was not provably stuck"
+	}
+	return o == vfC17Good, dump
+}
+
+// settle polls good (early exit); false = still not good after the deadline with nothing in flight (a
+// verdict) or - res.Unsure set - things were still moving at the hard cap.
+func (res *vfC17ScenResult) settle(good func() bool, act func() int64, busy func() bool) bool {
+	o := vfC17Settle(good, act, busy)
+	if o == vfC17Unsure {
+		res.Unsure = "the observed state was still changing at the hard cap"
+	}
+	return o == vfC17Good
+}
+
+func vfC17CloseFinder(s *Session) func(string) string {
+	return vfC17FindGoroutine(fmt.Sprintf("gocql.(*Session).Close(%p", s))
 }
 
 // Session.Close racing a ring refresh: the flusher is woken by refreshNow (as controlConn.reconnect
@@ -869,7 +980,7 @@ func vfC17ScenCloseAfterRefresh() vfC17ScenResult {
 	go s.refreshRing()
 	select {
 	case <-woke:
-	case <-time.After(2 * time.Second):
+	case <-time.After(vfC17DeadlineD()):
 		res.Err = "the flusher did not wake"
 		close(release)
 		s.Close()
@@ -879,17 +990,17 @@ func vfC17ScenCloseAfterRefresh() vfC17ScenResult {
 	go func() { s.Close(); close(closed) }()
 	select {
 	case <-marked:
-	case <-time.After(2 * time.Second):
+	case <-time.After(vfC17DeadlineD()):
 		res.Err = "Close did not reach refreshDebouncer.stop"
 		close(release)
 		return res
 	}
 	close(release)
-	select {
-	case <-closed:
+	if okcl, hdump := res.waitCh(closed, vfC17CloseFinder(s)); okcl {
+		_ = hdump
 		res.Obs = "Close returned"
-	case <-time.After(vfC17CloseWatchdog):
-		dump := vfGoroutineDump()
+	} else {
+		dump := hdump
 		res.Viol = "session-close-hang:" + vfC17HangSig(dump, s)
 		res.What = "Session.Close did not return within the watchdog when a ring refresh was requested just before " +
 			"(the flusher woke for the refresh, saw `stopped` and returned; stop() blocks on the quit send)"
@@ -935,7 +1046,7 @@ func vfC17ScenLatePool() vfC17ScenResult {
 	go s.refreshRing()
 	select {
 	case <-parked:
-	case <-time.After(2 * time.Second):
+	case <-time.After(vfC17DeadlineD()):
 		res.Err = "the refresh did not reach the new host"
 		close(release)
 		s.Close()
@@ -945,7 +1056,7 @@ func vfC17ScenLatePool() vfC17ScenResult {
 	go func() { s.Close(); close(closed) }()
 	// Close closes the pools, the control connection and the event debouncers, then waits for the
 	// refresh debouncer (its flusher is inside the refresh)
-	if !vfC17Poll(2*time.Second, func() bool {
+	if !vfC17Poll(vfC17DeadlineD(), func() bool {
 		s.pool.mu.RLock()
 		n := len(s.pool.hostConnPools)
 		s.pool.mu.RUnlock()
@@ -956,14 +1067,14 @@ func vfC17ScenLatePool() vfC17ScenResult {
 		return res
 	}
 	close(release)
-	select {
-	case <-closed:
-	case <-time.After(vfC17CloseWatchdog):
-		res.Viol = "session-close-hang:" + vfC17HangSig(vfGoroutineDump(), s)
+	if okcl, hdump := res.waitCh(closed, vfC17CloseFinder(s)); okcl {
+		_ = hdump
+	} else {
+		res.Viol = "session-close-hang:" + vfC17HangSig(hdump, s)
 		res.What = "Session.Close did not return while a refresh was adding a host"
 		return res
 	}
-	vfC17Poll(2*time.Second, func() bool { return len(r.openConns()) == 0 })
+	res.settle(func() bool { return len(r.openConns()) == 0 }, r.actN, r.busy)
 	open := r.openConns()
 	res.Obs = fmt.Sprintf("open connections after Close returned: %v (dialed %d)", open, len(r.dials))
 	if len(open) > 0 {
@@ -997,22 +1108,21 @@ func vfC17ScenHeartbeatAfterClose() vfC17ScenResult {
 		return res
 	}
 	s := r.sess
-	ok, _ := vfWithin(vfC17CloseWatchdog, s.Close)
+	ok, _ := res.within(s.Close, vfC17CloseFinder(s))
 	if !ok {
 		res.Err = "Close hung"
 		return res
 	}
-	vfC17Poll(2*time.Second, func() bool { return len(vfC17DriverGoroutines()) == 0 })
+	vfC17Poll(vfC17DeadlineD(), func() bool { return len(vfC17DriverGoroutines()) == 0 })
 	before := len(vfC17DriverGoroutines())
 	cc := createControlConn(s) // as Session.init does
 	cc.close()                 // Session.Close -> controlConn.close(), state is still "starting"
 	done := make(chan struct{})
 	go func() { cc.heartBeat(); close(done) }() // the goroutine connect() started finally runs
-	select {
-	case <-done:
+	if okhb, _ := res.waitCh(done, vfC17FindGoroutine("controlConn).heartBeat(", "vfC17ScenHeartbeatAfterClose")); okhb {
 		res.Obs = "heartBeat returned"
-	case <-time.After(2500 * time.Millisecond): // two heartbeat periods
-		res.Obs = fmt.Sprintf("heartBeat still running 2.5 s after close (driver goroutines before: %d)", before)
+	} else {
+		res.Obs = fmt.Sprintf("heartBeat still running long after close (driver goroutines before: %d)", before)
 		res.Viol = "goroutine-leak-after-close:controlConn.heartBeat-started-after-close"
 		res.What = "a control-connection heartBeat goroutine that is scheduled after controlConn.close() starts (state was still " +
 			"`starting`, so close did not signal it) and never stops; it keeps probing and trying to reconnect"
@@ -1047,7 +1157,7 @@ func vfC17ScenEventStopTwice() vfC17ScenResult {
 		res.Err = err.Error()
 		return res
 	}
-	ok, _ := vfWithin(vfC17CloseWatchdog, func() { r.sess.Close(); r.sess.Close() })
+	ok, _ := res.within(func() { r.sess.Close(); r.sess.Close() }, vfC17CloseFinder(r.sess))
 	if !ok {
 		res.Viol = "session-close-hang:second-close"
 		res.What = "a second Session.Close did not return"
@@ -1062,7 +1172,7 @@ func vfC17ScenEventStopTwice() vfC17ScenResult {
 func vfC17ScenRefreshAfterStop() vfC17ScenResult {
 	res := vfC17ScenResult{Name: "refresh-now-after-stop"}
 	d := newRefreshDebouncer(time.Hour, func() error { return nil })
-	ok, _ := vfWithin(2*time.Second, d.stop)
+	ok, _ := res.within(d.stop, nil)
 	if !ok {
 		res.Err = "plain stop() hung"
 		return res
@@ -1102,10 +1212,10 @@ func vfC17ScenFlusherSelfWait() vfC17ScenResult {
 	case <-answered:
 		res.Obs = "refreshRing returned"
 	case <-time.After(vfC17CloseWatchdog):
-		res.Obs = "refreshRing never returned"
+		res.Obs = "refreshRing had not returned after 3 s"
 	}
 	mc.SetFault(nil)
-	okc, dump := vfWithin(vfC17CloseWatchdog, s.Close)
+	okc, dump := res.within(s.Close, vfC17CloseFinder(s))
 	if !okc {
 		sig := vfC17HangSig(dump, s)
 		res.Viol = "session-close-hang:" + sig
@@ -1172,7 +1282,7 @@ func vfC17ScenCloseBusyRefresherPending() vfC17ScenResult {
 	go func() { defer callers.Done(); s.refreshRing() }() // served by the refresh that is about to park
 	select {
 	case <-parked:
-	case <-time.After(2 * time.Second):
+	case <-time.After(vfC17DeadlineD()):
 		res.Err = "the refresh did not reach the host loop"
 		close(release)
 		s.Close()
@@ -1199,7 +1309,7 @@ func vfC17ScenCloseBusyRefresherPending() vfC17ScenResult {
 	}
 	callers.Add(1)
 	go func() { defer callers.Done(); s.refreshRing() }() // pending: the refresher is busy
-	if !vfC17Poll(2*time.Second, func() bool { return atomic.LoadInt32(&nNow) >= 3 }) {
+	if !vfC17Poll(vfC17DeadlineD(), func() bool { return atomic.LoadInt32(&nNow) >= 3 }) {
 		res.Err = fmt.Sprintf("reconnect did not ask for a refresh (refreshNow calls: %d)", atomic.LoadInt32(&nNow))
 		close(release)
 		s.Close()
@@ -1209,20 +1319,20 @@ func vfC17ScenCloseBusyRefresherPending() vfC17ScenResult {
 	go func() { s.Close(); close(closed) }()
 	select {
 	case <-marked:
-	case <-time.After(2 * time.Second):
+	case <-time.After(vfC17DeadlineD()):
 		res.Err = "Close did not reach refreshDebouncer.stop"
 		close(release)
 		return res
 	}
 	close(release)
-	select {
-	case <-closed:
-	case <-time.After(vfC17CloseWatchdog):
-		res.Viol = "session-close-hang:" + vfC17HangSig(vfGoroutineDump(), s)
+	if okcl, hdump := res.waitCh(closed, vfC17CloseFinder(s)); okcl {
+		_ = hdump
+	} else {
+		res.Viol = "session-close-hang:" + vfC17HangSig(hdump, s)
 		res.What = "Session.Close did not return while the ring refresher was busy and further refreshes were pending"
 		return res
 	}
-	okc, _ := vfWithin(vfC17CloseWatchdog, callers.Wait)
+	okc, _ := res.within(callers.Wait, vfC17FindGoroutine("gocql.(*Session).refreshRing", "vfC17ScenCloseBusyRefresherPending"))
 	var gs []string
 	mine := func() []string {
 		// driver goroutines parked in refreshRing that were not there before this scenario lost its
@@ -1236,7 +1346,16 @@ func vfC17ScenCloseBusyRefresherPending() vfC17ScenResult {
 		}
 		return out
 	}
-	vfC17Poll(2*time.Second, func() bool { gs = mine(); return len(gs) == 0 })
+	res.settle(func() bool { gs = mine(); return len(gs) == 0 }, func() int64 {
+		var h int64
+		for _, g := range mine() {
+			for _, c := range vfC17GoroutineID(g) {
+				h = h*131 + int64(c)
+			}
+			h = h*7 + 1
+		}
+		return h
+	}, nil)
 	res.Obs = fmt.Sprintf("Close returned; refreshRing callers returned: %v; driver goroutines parked in refreshRing: %d", okc, len(gs))
 	switch {
 	case len(gs) > 0:
@@ -1332,7 +1451,7 @@ func vfC17ScenReconnectRacingClose() vfC17ScenResult {
 	go s.refreshRing()
 	select {
 	case <-parked:
-	case <-time.After(2 * time.Second):
+	case <-time.After(vfC17DeadlineD()):
 		res.Err = "the refresh did not reach the host loop"
 		cleanup()
 		s.Close()
@@ -1355,7 +1474,7 @@ func vfC17ScenReconnectRacingClose() vfC17ScenResult {
 	}
 	select {
 	case <-dialParked: // reconnect has passed its closing check and is dialling
-	case <-time.After(2 * time.Second):
+	case <-time.After(vfC17DeadlineD()):
 		res.Err = "reconnect did not start dialling"
 		cleanup()
 		s.Close()
@@ -1365,7 +1484,7 @@ func vfC17ScenReconnectRacingClose() vfC17ScenResult {
 	go func() { s.Close(); close(closed) }()
 	select {
 	case <-marked: // pools, control connection and event debouncers are closed; Close waits for the refresher
-	case <-time.After(2 * time.Second):
+	case <-time.After(vfC17DeadlineD()):
 		res.Err = "Close did not reach refreshDebouncer.stop"
 		cleanup()
 		return res
@@ -1373,7 +1492,7 @@ func vfC17ScenReconnectRacingClose() vfC17ScenResult {
 	before := len(r.dials)
 	close(dialRelease)
 	// the new control connection is set up (or refused); then the refresh may finish
-	vfC17Poll(time.Second, func() bool {
+	vfC17Poll(vfC17DeadlineD(), func() bool {
 		ch := s.control.getConn()
 		r.mu.Lock()
 		n := len(r.dials)
@@ -1381,14 +1500,14 @@ func vfC17ScenReconnectRacingClose() vfC17ScenResult {
 		return n > before && ch != nil && ch.conn != nil && atomic.LoadInt32(&s.control.reconnecting) == 0
 	})
 	close(release)
-	select {
-	case <-closed:
-	case <-time.After(vfC17CloseWatchdog):
-		res.Viol = "session-close-hang:" + vfC17HangSig(vfGoroutineDump(), s)
+	if okcl, hdump := res.waitCh(closed, vfC17CloseFinder(s)); okcl {
+		_ = hdump
+	} else {
+		res.Viol = "session-close-hang:" + vfC17HangSig(hdump, s)
 		res.What = "Session.Close did not return while a control-connection reconnect was in progress"
 		return res
 	}
-	vfC17Poll(2*time.Second, func() bool { return len(r.openConns()) == 0 })
+	res.settle(func() bool { return len(r.openConns()) == 0 }, r.actN, r.busy)
 	open := r.openConns()
 	res.Obs = fmt.Sprintf("open connections after Close returned: %v (dialed %d)", open, len(r.dials))
 	if len(open) > 0 {
@@ -1424,7 +1543,7 @@ func vfC17ScenFailingSocketClose() vfC17ScenResult {
 	}
 	var p2 *hostConnPool
 	if h2 != nil {
-		vfC17Poll(2*time.Second, func() bool { p, ok := s.pool.getPool(h2); p2 = p; return ok && p.Size() == 2 })
+		vfC17Poll(vfC17DeadlineD(), func() bool { p, ok := s.pool.getPool(h2); p2 = p; return ok && p.Size() == 2 })
 	}
 	if p2 == nil {
 		res.Err = "no pool for the second host"
@@ -1433,16 +1552,16 @@ func vfC17ScenFailingSocketClose() vfC17ScenResult {
 	}
 	// host 2 leaves the ring: refresh -> removeHost -> go pool.Close()
 	r.cl.Set([]vfHostDesc{vfDesc(1)})
-	okr, _ := vfWithin(vfC17CloseWatchdog, func() { s.refreshRing() })
+	okr, _ := res.within(func() { s.refreshRing() }, nil)
 	if !okr {
 		res.Err = "refreshRing did not return"
 		return res
 	}
-	okp, dump := vfWithin(vfC17CloseWatchdog, func() {
-		vfC17Poll(2*time.Second, func() bool { p2.mu.RLock(); c := p2.closed; p2.mu.RUnlock(); return c })
+	okp, dump := res.within(func() {
+		vfC17Poll(vfC17DeadlineD(), func() bool { p2.mu.RLock(); c := p2.closed; p2.mu.RUnlock(); return c })
 		p2.Size()
 		p2.Pick()
-	})
+	}, nil)
 	if !okp {
 		res.Viol = "pool-lock-deadlock:" + vfC17LockSig(dump, p2)
 		res.What = "after a host was removed, Size/Pick of its pool never returned: a pool method waits for pool.mu while holding it " +
@@ -1450,14 +1569,14 @@ func vfC17ScenFailingSocketClose() vfC17ScenResult {
 		res.Obs = "Size/Pick of the removed host's pool blocked"
 		return res
 	}
-	okc, dump2 := vfWithin(vfC17CloseWatchdog, s.Close)
+	okc, dump2 := res.within(s.Close, vfC17CloseFinder(s))
 	if !okc {
 		res.Viol = "session-close-hang:" + vfC17HangSig(dump2, s)
 		res.What = "Session.Close did not return with sockets whose Close() reports an error"
 		res.Obs = "Close hung"
 		return res
 	}
-	vfC17Poll(2*time.Second, func() bool { return len(r.openConns()) == 0 })
+	res.settle(func() bool { return len(r.openConns()) == 0 }, r.actN, r.busy)
 	open := r.openConns()
 	res.Obs = fmt.Sprintf("host pool closed, Size/Pick returned, Close returned; open connections: %v (dialed %d)", open, len(r.dials))
 	if len(open) > 0 {
@@ -1512,7 +1631,7 @@ func vfC17ScenReconnectSetupFails(step string) func() vfC17ScenResult {
 			r.mu.Unlock()
 		}
 		// pools are full, nothing else dials
-		vfC17Poll(2*time.Second, func() bool { return s.pool.Size() == 2 })
+		vfC17Poll(vfC17DeadlineD(), func() bool { return s.pool.Size() == 2 })
 		ch := s.control.getConn()
 		var ctl *vfC17DialRec
 		for _, d := range r.liveNodeConns() {
@@ -1531,7 +1650,7 @@ func vfC17ScenReconnectSetupFails(step string) func() vfC17ScenResult {
 		atomic.StoreInt32(&armed, 1)
 		ctl.nc.Close() // the control connection is lost: HandleError -> reconnect -> one attempt per host
 		ndials := func() int { r.mu.Lock(); defer r.mu.Unlock(); return len(r.dials) }
-		if !vfC17Poll(3*time.Second, func() bool {
+		if !vfC17Poll(vfC17DeadlineD(), func() bool {
 			return ndials() >= before+2 && atomic.LoadInt32(&s.control.reconnecting) == 0
 		}) {
 			res.Err = fmt.Sprintf("the reconnect did not try both hosts (dials %d -> %d)", before, ndials())
@@ -1539,11 +1658,14 @@ func vfC17ScenReconnectSetupFails(step string) func() vfC17ScenResult {
 			s.Close()
 			return res
 		}
+		// the connections of the attempts that are over (the heartbeat will start further attempts every second: those
+		// are not waited for): every one of them must be closed
+		r.mu.Lock()
+		over := append([]*vfC17DialRec(nil), r.dials[before:]...)
+		r.mu.Unlock()
 		leaked := func() []int {
-			r.mu.Lock()
-			defer r.mu.Unlock()
 			var out []int
-			for _, d := range r.dials[before:] {
+			for _, d := range over {
 				if !d.mem.IsClosed() {
 					out = append(out, d.id)
 				}
@@ -1551,15 +1673,16 @@ func vfC17ScenReconnectSetupFails(step string) func() vfC17ScenResult {
 			return out
 		}
 		var after []int
-		vfC17Poll(time.Second, func() bool { after = leaked(); return len(after) == 0 })
+		res.settle(func() bool { after = leaked(); return len(after) == 0 },
+			func() int64 { return int64(len(over) - len(leaked())) }, nil)
 		natt := ndials() - before
-		okc, dump := vfWithin(vfC17CloseWatchdog, s.Close)
+		okc, dump := res.within(s.Close, vfC17CloseFinder(s))
 		if !okc {
 			res.Viol = "session-close-hang:" + vfC17HangSig(dump, s)
 			res.What = "Session.Close did not return after failed control-connection reconnects"
 			return res
 		}
-		vfC17Poll(2*time.Second, func() bool { return len(r.openConns()) == 0 })
+		res.settle(func() bool { return len(r.openConns()) == 0 }, r.actN, r.busy)
 		open := r.openConns()
 		res.Obs = fmt.Sprintf("%d reconnect attempts; connections of failed attempts still open: %v; open after Close: %v", natt, after, open)
 		if len(after) > 0 || len(open) > 0 {
@@ -1591,7 +1714,7 @@ func vfC17ScenPoolRefilled(size int) func() vfC17ScenResult {
 			m := r.openPerHost()
 			return m["10.0.0.1"] == size && m["10.0.0.2"] == size
 		}
-		if !vfC17Poll(3*time.Second, full) {
+		if !vfC17Poll(vfC17DeadlineD(), full) {
 			res.Err = fmt.Sprintf("pools did not fill initially: %v", r.openPerHost())
 			s.Close()
 			return res
@@ -1611,17 +1734,35 @@ func vfC17ScenPoolRefilled(size int) func() vfC17ScenResult {
 			}
 			victim.nc.Close()
 			// queries keep arriving (Pick triggers a fill when the pool is short)
-			ok := vfC17Poll(3*time.Second, func() bool {
+			filling := func() bool {
+				if r.busy() {
+					return true
+				}
+				for _, h := range s.ring.allHosts() {
+					if p, okp := s.pool.getPool(h); okp {
+						p.mu.RLock()
+						f := p.filling
+						p.mu.RUnlock()
+						if f {
+							return true
+						}
+					}
+				}
+				return false
+			}
+			// early exit as soon as the dialer sees NumConns again; "not refilled" only after the deadline with no
+			// dial and no fill in progress and nothing opened / closed any more although Pick kept asking
+			ok := res.settle(func() bool {
 				for _, h := range s.ring.allHosts() {
 					if p, okp := s.pool.getPool(h); okp {
 						p.Pick()
 					}
 				}
 				return full()
-			})
+			}, r.actN, filling)
 			if !ok {
 				res.Viol = "pool-not-refilled"
-				res.What = fmt.Sprintf("a pool of size %d that lost a connection (loss %d) was not back at its size within 3 s although queries kept "+
+				res.What = fmt.Sprintf("a pool of size %d that lost a connection (loss %d) was not back at its size (no dial, no fill in progress any more) although queries kept "+
 					"arriving: open connections per host %v", size, round, r.openPerHost())
 				res.Obs = fmt.Sprintf("after loss %d: %v", round, r.openPerHost())
 				s.Close()
@@ -1635,7 +1776,7 @@ func vfC17ScenPoolRefilled(size int) func() vfC17ScenResult {
 			}
 		}
 		res.Obs = fmt.Sprintf("refilled twice; open per host %v", r.openPerHost())
-		okc, dump := vfWithin(vfC17CloseWatchdog, s.Close)
+		okc, dump := res.within(s.Close, vfC17CloseFinder(s))
 		if !okc {
 			res.Viol = "session-close-hang:" + vfC17HangSig(dump, s)
 			res.What = "Session.Close did not return"
@@ -1672,6 +1813,13 @@ func TestVfC17Scenarios(t *testing.T) {
 	}
 	wg.Wait()
 	for _, r := range results {
+		if r.Unsure != "" {
+			// no verdict from an observation that could not be settled
+			r.Viol, r.What = "", ""
+			if r.Err == "" {
+				r.Err = "unsettled: " + r.Unsure
+			}
+		}
 		out.Write(r)
 	}
 	fmt.Printf("VFSUMMARY {}\n")
